@@ -231,9 +231,10 @@ fn ver(rng: &mut Rng, ctx: &mut Ctx) {
         strs.push(s.into_iter().collect());
     }
     for s in strs.iter() {
-        let r = slippi::Version::from_str(s); let p = peppi::io::peppi::Version::from_str(s);
+        let both = std::panic::catch_unwind(|| (slippi::Version::from_str(s).map(|v| (v.0, v.1, v.2)).map_err(|_| ()), peppi::io::peppi::Version::from_str(s).map(|v| (v.0, v.1, v.2)).map_err(|_| ())));
+        let (r, p) = match both { Ok(x) => x, Err(_) => { let mut c = Case::new(format!("vparse {}", hex(s.as_bytes())), "panic".into()); c.fail("C20", format!("version parser panicked on {:?}", s)); ctx.push(c); continue; } };
         let show = |r: Result<(u8,u8,u8), ()>| match r { Ok(v) => format!("ok {} {} {}", v.0, v.1, v.2), Err(_) => "err".to_string() };
-        let a = show(r.map(|v| (v.0, v.1, v.2)).map_err(|_| ())); let b = show(p.map(|v| (v.0, v.1, v.2)).map_err(|_| ()));
+        let a = show(r); let b = show(p);
         let mut c = Case::new(format!("vparse {}", hex(s.as_bytes())), a.clone()); c.tags = vec!["parse".into()];
         if a != b { c.fail("C20", format!("peppi format version parser differs on {:?}: {} vs {}", s, b, a)); }
         // independent reading of "three dot-separated integers in 0..255" (optional '+', ASCII digits)
@@ -418,10 +419,10 @@ fn start(rng: &mut Rng, ctx: &mut Ctx) {
 pub fn gen_tree(rng: &mut Rng, depth: usize, out: &mut Vec<u8>) {
     let n = (rng.next() % 4) as usize;
     for i in 0..n {
-        let klen = (rng.next() % 4) as usize; out.push(b'U'); out.push(klen as u8 + 1); out.push(b'a' + i as u8); for _ in 0..klen { out.push(b'a' + (rng.next() % 26) as u8); }
+        let klen = (rng.next() % 4) as usize; out.push(b'U'); out.push(klen as u8 + 1); out.push(b'a' + i as u8); for _ in 0..klen { out.push(match rng.next() % 12 { 0 => 0, 1 => b' ', 2 => b'"', 3 => b'\\', _ => b'a' + (rng.next() % 26) as u8 }); }
         match rng.next() % 4 {
             0 => { out.push(b'l'); let x = match rng.next() % 5 { 0 => i32::MIN, 1 => i32::MAX, 2 => -1, _ => (rng.next() >> 16) as i32 }; out.extend(x.to_be_bytes()); }
-            1 => { let s: Vec<u8> = match rng.next() % 4 { 0 => vec![], 1 => "né😀".as_bytes().to_vec(), 2 => vec![b'x'; 255], _ => (0..(rng.next() % 9)).map(|_| 0x20 + (rng.next() % 90) as u8).collect() }; out.push(b'S'); out.push(b'U'); out.push(s.len() as u8); out.extend(s); }
+            1 => { let s: Vec<u8> = match rng.next() % 8 { 0 => vec![], 1 => "né😀".as_bytes().to_vec(), 2 => vec![b'x'; 255], 3 => b"Station 1\0\0\0".to_vec(), 4 => vec![0], 5 => "\u{feff} a\tb\r\n\u{7f}\u{10ffff} ".as_bytes().to_vec(), 6 => { let mut v: Vec<u8> = (0..(rng.next() % 9)).map(|_| (rng.next() % 128) as u8).collect(); if rng.next() % 2 == 0 { v.push(0); } v } _ => (0..(rng.next() % 9)).map(|_| 0x20 + (rng.next() % 90) as u8).collect() }; out.push(b'S'); out.push(b'U'); out.push(s.len() as u8); out.extend(s); }
             _ => { if depth < 4 { out.push(b'{'); gen_tree(rng, depth + 1, out); out.push(b'}'); } else { out.push(b'l'); out.extend(7i32.to_be_bytes()); } }
         }
     }
